@@ -193,7 +193,14 @@ class Probe:
         self.stop_after_prepass = True
         try:
             with common.quiet():
-                self.main.format_code(s)
+                # since 9438482 format_code is a wrapper that terminates the text with a line break before it
+                # calls _format_code, which holds the pre-pass; the pre-pass correspondence is about that body
+                inner = getattr(self.main, "_format_code", None)
+                if inner is not None:
+                    inner(s, preserve=frozenset(), safe=False, keep_imports=False,
+                          max_line_length=self.mods["core"].parse_line_length_from_pyproject_toml())
+                else:
+                    self.main.format_code(s)
             stopped = False
         except _Stop:
             stopped = True
